@@ -10,6 +10,7 @@ Local Open Scope N_scope.
 Section Top.
   Variable env : text * text.
   Hypothesis Henv : env_ok env.
+  Variable cx : ctx.
 
   Lemma Pre_monoA : forall A C R s X, Pre env A C R s -> Pre env (A ++ X) C R s.
   Proof.
@@ -23,10 +24,10 @@ Section Top.
   Qed.
 
   (* calls other than redirect never touch the transport *)
-  Lemma step_frame : forall o s r s', (forall u p, o <> Redirect u p) -> step o s = (r, s') ->
+  Lemma step_frame : forall o s r s', (forall u p, o <> Redirect u p) -> step cx o s = (r, s') ->
     written s' = written s /\ wire s' = wire s.
   Proof.
-    intros o s r s' NR H. destruct o as [n v|n v|c rr|n v d p ss|u p]; cbn [step] in H.
+    intros o s r s' NR H. destruct o as [n v|n v|c rr|n v d p ss fl|n v|n|u p]; cbn [step] in H.
     - unfold set_header in H. destruct (convert_header_value v); [destruct n|]; inversion H; subst; auto.
     - unfold add_header in H. destruct (convert_header_value v) as [x|]; [destruct n as [nt|nb]|];
         try (inversion H; subst; auto; fail).
@@ -42,6 +43,8 @@ Section Top.
       destruct (check_attr ss); [|inversion H; subst; auto].
       destruct (negb (morsel_key_ok name)); [inversion H; subst; auto|].
       match type of H with (if ?b then _ else _) = _ => destruct b end; inversion H; subst; auto.
+    - unfold set_header_num in H. destruct n; inversion H; subst; auto.
+    - unfold clear_header in H. destruct n; inversion H; subst; auto. destruct (h_mem s0 (hdrs s)); auto.
     - exfalso. eapply NR. reflexivity.
   Qed.
 
@@ -56,7 +59,7 @@ Section Top.
     - rewrite Ewire. destruct H2 as [E|G]; [left; exact E|right; apply good_wire_mono; exact G].
   Qed.
 
-  Lemma redirect_inv : forall A C R u p s r s', redirect u p s = (r, s') -> Inv env A C R s ->
+  Lemma redirect_inv : forall A C R u p s r s', redirect cx u p s = (r, s') -> Inv env A C R s ->
     Inv env (A ++ entitled (Redirect u p) r) (C ++ codes_of (Redirect u p)) (R ++ reasons_of (Redirect u p)) s'.
   Proof.
     intros A C R u p s r s' H I. unfold redirect in H.
@@ -100,8 +103,8 @@ Section Top.
         + unfold h_set. pose proof (pairs_d_set_len (normalize_u k_clen) [dec 0] (hdrs s2)).
           simpl in *. lia. }
     destruct F3 as (F1 & F2 & F3 & F4 & F5 & F6 & F7).
-    destruct (flush_headers s3) as [[r4 s4] nz] eqn:E4.
-    destruct (flush_good env A' C' R' s3 r4 s4 nz E4 F1 F2 F3 F4 F5 F6 (or_introl F7)) as (W4 & G).
+    destruct (flush_headers cx s3) as [[r4 s4] nz] eqn:E4.
+    destruct (flush_good env cx A' C' R' s3 r4 s4 nz E4 F1 F2 F3 F4 F5 F6 (or_introl F7)) as (W4 & G).
     assert (Ent : forall rr, rr = Ok \/ rr = Err EOutput -> entitled (Redirect u p) rr = [L]).
     { intros rr [->| ->]; cbn [entitled]; rewrite Eu; reflexivity. }
     destruct r4 as [|e4].
@@ -113,11 +116,11 @@ Section Top.
       split; [intro; congruence|left; exact G].
   Qed.
 
-  Lemma step_inv : forall A C R o s r s', step o s = (r, s') -> Inv env A C R s ->
+  Lemma step_inv : forall A C R o s r s', step cx o s = (r, s') -> Inv env A C R s ->
     Inv env (A ++ entitled o r) (C ++ codes_of o) (R ++ reasons_of o) s'.
   Proof.
     intros A C R o s r s' H I.
-    destruct o as [n v|n v|c rr|n v d p ss|u p].
+    destruct o as [n v|n v|c rr|n v d p ss fl|n v|n|u p].
     - assert (FR : written s' = written s /\ wire s' = wire s) by (eapply step_frame; [|exact H]; intros; discriminate). destruct FR as [Fw Fi]. cbn [step] in H.
       apply (lift_pre A C R s s' _ _ _ I Fw Fi). intro P.
       apply Pre_monoCR. apply (set_header_pre env A C R _ _ _ _ _ H P).
@@ -129,18 +132,24 @@ Section Top.
       apply Pre_monoA. apply (set_status_pre env A C R _ _ _ _ _ H P).
     - assert (FR : written s' = written s /\ wire s' = wire s) by (eapply step_frame; [|exact H]; intros; discriminate). destruct FR as [Fw Fi]. cbn [step] in H.
       apply (lift_pre A C R s s' _ _ _ I Fw Fi). intro P.
-      apply Pre_monoCR. apply (set_cookie_pre env A C R _ _ _ _ _ _ _ _ H P).
+      apply Pre_monoCR. apply (set_cookie_pre env A C R _ _ _ _ _ _ _ _ _ H P).
+    - assert (FR : written s' = written s /\ wire s' = wire s) by (eapply step_frame; [|exact H]; intros; discriminate). destruct FR as [Fw Fi]. cbn [step] in H.
+      apply (lift_pre A C R s s' _ _ _ I Fw Fi). intro P.
+      apply Pre_monoCR. apply (set_header_num_pre env A C R _ _ _ _ _ H P).
+    - assert (FR : written s' = written s /\ wire s' = wire s) by (eapply step_frame; [|exact H]; intros; discriminate). destruct FR as [Fw Fi]. cbn [step] in H.
+      apply (lift_pre A C R s s' _ _ _ I Fw Fi). intro P.
+      apply Pre_monoCR. apply (clear_header_pre env A C R _ _ _ _ H P).
     - cbn [step] in H. eapply redirect_inv; eauto.
   Qed.
 
-  Lemma run_ops_inv : forall ops A C R s rs s', run_ops ops s = (rs, s') -> Inv env A C R s ->
+  Lemma run_ops_inv : forall ops A C R s rs s', run_ops cx ops s = (rs, s') -> Inv env A C R s ->
     Inv env (A ++ app_lines ops rs) (C ++ flat_map codes_of ops) (R ++ flat_map reasons_of ops) s'
     /\ length rs = length ops.
   Proof.
     induction ops as [|o ops IH]; intros A C R s rs s' H I.
     - inversion H; subst. split; [apply Inv_mono; exact I|reflexivity].
-    - cbn [run_ops] in H. destruct (step o s) as [r s1] eqn:E1.
-      destruct (run_ops ops s1) as [rs1 s2] eqn:E2. inversion H; subst rs s'.
+    - cbn [run_ops] in H. destruct (step cx o s) as [r s1] eqn:E1.
+      destruct (run_ops cx ops s1) as [rs1 s2] eqn:E2. inversion H; subst rs s'.
       pose proof (step_inv A C R o s r s1 E1 I) as I1.
       destruct (IH _ _ _ _ _ _ E2 I1) as [I2 L]. split; [|simpl; congruence].
       cbn [app_lines flat_map]. rewrite !app_assoc. exact I2.
@@ -156,7 +165,7 @@ Section Top.
       In (Some sl) (status_candidates ops) /\
       forallb well_formed_header hls = true /\
       Forall (fun l => In l (default_lines env ++ framing_lines ++ app_lines ops rs)) hls /\
-      (length hls <= 4 + length (app_lines ops rs))%nat.
+      (length hls <= 5 + length (app_lines ops rs))%nat.
   Proof.
     intros ops rs w (sl & hls & E & Hc & (c & r & Hc1 & Hr1 & Hs) & Hw & Hin & Hl).
     exists sl, hls. cbn [app] in *. split; [|split; [|split; [|split; [|split]]]].
@@ -170,34 +179,34 @@ Section Top.
   Qed.
 
   Theorem block_exact : forall ops rs fin w,
-    run env ops = (rs, fin, w) -> w <> [] ->
+    run env cx ops = (rs, fin, w) -> w <> [] ->
     exists sl hls,
       w = join CRLF (sl :: hls) ++ CRLF ++ CRLF /\
       strict_parse w = Some (sl, hls) /\
       In (Some sl) (status_candidates ops) /\
       forallb well_formed_header hls = true /\
       Forall (fun l => In l (default_lines env ++ framing_lines ++ app_lines ops rs)) hls /\
-      (length hls <= 4 + length (app_lines ops rs))%nat.
+      (length hls <= 5 + length (app_lines ops rs))%nat.
   Proof.
     intros ops rs fin w H Hne. unfold run in H.
-    destruct (run_ops ops (init env)) as [rs0 s] eqn:E.
+    destruct (run_ops cx ops (init env)) as [rs0 s] eqn:E.
     destruct (run_ops_inv ops _ _ _ _ _ _ E (init_inv env Henv)) as [[I1 I2] _].
     destruct (written s) eqn:W.
     - inversion H; subst rs0 fin w. destruct I2 as [I2|I2]; [contradiction|].
       apply good_wire_final; exact I2.
-    - destruct (flush_headers s) as [[r s2] nz] eqn:F. inversion H; subst rs0 fin w.
+    - destruct (flush_headers cx s) as [[r s2] nz] eqn:F. inversion H; subst rs0 fin w.
       destruct (I1 eq_refl) as [Wire [Q1 Q2 Q3 Q4 Q5 Q6 Q7]].
-      destruct (flush_good env _ _ _ s r s2 nz F Wire Q1 Q2 Q3 Q4 Q6 (or_intror (le_n_S _ _ Q7))) as (_ & G).
+      destruct (flush_good env cx _ _ _ s r s2 nz F Wire Q1 Q2 Q3 Q4 Q6 (or_intror (le_n_S _ _ Q7))) as (_ & G).
       destruct G as [(_ & _ & G)|[_ G]]; [contradiction|].
       apply good_wire_final; exact G.
   Qed.
 
-  Lemma run_lengths : forall ops rs fin w, run env ops = (rs, fin, w) -> length rs = length ops.
+  Lemma run_lengths : forall ops rs fin w, run env cx ops = (rs, fin, w) -> length rs = length ops.
   Proof.
     intros ops rs fin w H. unfold run in H.
-    destruct (run_ops ops (init env)) as [rs0 s] eqn:E.
+    destruct (run_ops cx ops (init env)) as [rs0 s] eqn:E.
     destruct (run_ops_inv ops _ _ _ _ _ _ E (init_inv env Henv)) as [_ L].
-    destruct (written s); [|destruct (flush_headers s) as [[r s2] nz]]; inversion H; subst; exact L.
+    destruct (written s); [|destruct (flush_headers cx s) as [[r s2] nz]]; inversion H; subst; exact L.
   Qed.
 
   (* ---------- the wire carries no control byte other than the CRLF separators ---------- *)
@@ -214,7 +223,7 @@ Section Top.
     - unfold CRLF. constructor; [left; reflexivity|]. constructor; [right; left; reflexivity|constructor].
   Qed.
 
-  Theorem wire_bytes : forall ops rs fin w, run env ops = (rs, fin, w) -> Forall wire_byte_ok w.
+  Theorem wire_bytes : forall ops rs fin w, run env cx ops = (rs, fin, w) -> Forall wire_byte_ok w.
   Proof.
     intros ops rs fin w H. destruct w as [|b w'] eqn:Ew; [constructor|]. rewrite <- Ew in *.
     assert (Hne : w <> []) by (subst w; discriminate).
@@ -223,7 +232,7 @@ Section Top.
     rewrite E in Hp. eapply strict_parse_clean; eauto.
   Qed.
 
-  Theorem no_nul_on_wire : forall ops rs fin w, run env ops = (rs, fin, w) -> ~ In 0 w.
+  Theorem no_nul_on_wire : forall ops rs fin w, run env cx ops = (rs, fin, w) -> ~ In 0 w.
   Proof.
     intros ops rs fin w H Hin. pose proof (wire_bytes ops rs fin w H) as F.
     eapply Forall_forall in F; eauto. destruct F as [F|[F|F]]; try discriminate.
@@ -237,10 +246,10 @@ Section Top.
     induction rs as [|r rs IH]; [reflexivity|]. cbn [map sequence_o]. rewrite res_of_obs_res, IH. reflexivity.
   Qed.
 
-  Theorem check_case_model : forall ops, check_case (env, Handler ops) (run_case (env, Handler ops)) = true.
+  Theorem check_case_model : forall ops, check_case (env, cx, Handler ops) (run_case (env, cx, Handler ops)) = true.
   Proof.
     intro ops. unfold run_case, check_case, check_gen.
-    destruct (run env ops) as [[rs fin] w] eqn:E.
+    destruct (run env cx ops) as [[rs fin] w] eqn:E.
     rewrite sequence_res. rewrite (run_lengths _ _ _ _ E), Nat.eqb_refl. cbn [andb].
     destruct w as [|b w'] eqn:Ew; [reflexivity|]. rewrite <- Ew in *.
     assert (Hne : w <> []) by (subst w; discriminate).
@@ -290,12 +299,12 @@ Qed.
 
 (* set_cookie: a failing call leaves the handler untouched; control characters (and, in name
    and attributes, ';' and DEL) make it fail *)
-Lemma set_cookie_err_frame : forall n v d p ss s e s',
-  set_cookie n v d p ss s = (Err e, s') ->
+Lemma set_cookie_err_frame : forall n v d p ss fl s e s',
+  set_cookie n v d p ss fl s = (Err e, s') ->
   hdrs s' = hdrs s /\ code s' = code s /\ reason s' = reason s /\ written s' = written s /\
   wire s' = wire s /\ incl (map snd (cookies s')) (map snd (cookies s)).
 Proof.
-  intros n v d p ss s e s' H. unfold set_cookie in H.
+  intros n v d p ss fl s e s' H. unfold set_cookie in H.
   assert (Same : hdrs s = hdrs s /\ code s = code s /\ reason s = reason s /\ written s = written s /\
                  wire s = wire s /\ incl (map snd (cookies s)) (map snd (cookies s))).
   { repeat split; auto. apply incl_refl. }
@@ -322,13 +331,13 @@ Lemma check_attr_bad : forall a, attr_has_bad a -> check_attr a = Err ECookie.
 Proof.
   intros a (x & c & -> & Hin & Hc). cbn [check_attr]. erewrite existsb_In; eauto.
 Qed.
-Lemma set_cookie_rejects : forall n v d p ss s name value,
+Lemma set_cookie_rejects : forall n v d p ss fl s name value,
   native_str n = Some name -> native_str v = Some value ->
   (exists c, In c value /\ c <= 32) \/ (exists c, In c name /\ cookie_attr_bad c = true) \/
   attr_has_bad d \/ attr_has_bad p \/ attr_has_bad ss ->
-  exists e, set_cookie n v d p ss s = (Err e, s).
+  exists e, set_cookie n v d p ss fl s = (Err e, s).
 Proof.
-  intros n v d p ss s name value En Ev H. unfold set_cookie. rewrite En, Ev.
+  intros n v d p ss fl s name value En Ev H. unfold set_cookie. rewrite En, Ev.
   destruct (existsb cookie_value_bad value) eqn:B1; [eauto|].
   destruct (existsb cookie_attr_bad name) eqn:B2; [eauto|].
   destruct H as [(c & Hin & Hc)|[(c & Hin & Hc)|H]].
@@ -343,11 +352,11 @@ Proof.
 Qed.
 
 (* redirect: an unsafe byte in the (UTF-8 encoded) target is refused before anything is written *)
-Lemma redirect_rejects : forall u p s b c, written s = false -> utf8 u = Some b ->
+Lemma redirect_rejects : forall cx u p s b c, written s = false -> utf8 u = Some b ->
   In c b -> valid_hchar c = false ->
-  exists s', redirect u p s = (Err EValue, s') /\ wire s' = wire s /\ written s' = false /\ hdrs s' = hdrs s.
+  exists s', redirect cx u p s = (Err EValue, s') /\ wire s' = wire s /\ written s' = false /\ hdrs s' = hdrs s.
 Proof.
-  intros u p s b c W Eu Hin Hc. unfold redirect. rewrite W, Eu.
+  intros cx u p s b c W Eu Hin Hc. unfold redirect. rewrite W, Eu.
   rewrite (set_header_rejects (Str k_location) (Byt b) _ c Hin Hc).
   eexists. split; [reflexivity|]. cbn [set_status snd wire written hdrs]. auto.
 Qed.
